@@ -10,7 +10,7 @@
 (***************************************************************************)
 EXTENDS DKGProps, Json, SequencesExt, FiniteSetsExt
 
-CONSTANTS MaxRej, Emit, AccuseAny, Windows, Partial, MaxReload, MaxLag
+CONSTANTS MaxRej, Emit, AccuseAny, Windows, Partial, MaxReload, MaxLag, Overlap
 
 VARIABLES st, g, last, hist
 vars == <<st, g, last, hist>>
@@ -41,7 +41,7 @@ ASSUME PrintT(<<"ALPHABET", ToJson(Alphabet)>>)
 ASSUME PrintT(<<"CONST", ToJson([n |-> N, t |-> T, byz |-> SetSeq(Byz), phaseLen |-> PhaseLen, init |-> InitState])>>)
 ASSUME Cardinality(Byz) <= N - T /\ Byz \subseteq K /\ T >= 1 /\ T <= N
 
-Init == st = InitState /\ g = GhostInit /\ last = 0 /\ hist = <<>>
+Init == st = [InitState EXCEPT !.ov = Overlap] /\ g = GhostInit /\ last = 0 /\ hist = <<>>
 
 Step(i) ==
     LET o == Alphabet[i] IN
